@@ -30,6 +30,7 @@ type stVariant struct {
 	Patch   string // path of the diff
 	Reverse bool
 	Props   []string // properties this variant belongs to
+	Benign  bool     // a behaviour-preserving change: must stay silent for every property
 }
 
 type stExpect struct {
@@ -93,6 +94,12 @@ func loadVariants(verifDir string) []stVariant {
 		}
 		sort.Strings(ps)
 		out = append(out, stVariant{ID: "seed-" + filepath.Base(d), Patch: p, Props: ps})
+	}
+	// behaviour-preserving refactorings: no check may fire on them (Props empty = every claimed property)
+	bs, _ := filepath.Glob(filepath.Join(verifDir, "selftest", "benign", "*.diff"))
+	sort.Strings(bs)
+	for _, b := range bs {
+		out = append(out, stVariant{ID: "benign-" + strings.TrimSuffix(filepath.Base(b), ".diff"), Patch: b, Benign: true})
 	}
 	// merge duplicates (one commit fixing several properties is listed once per property)
 	byID := map[string]*stVariant{}
@@ -252,7 +259,17 @@ func runBattery(verifDir, root string, only string) map[string]map[string]stResu
 	var wg sync.WaitGroup
 	for _, v := range vars {
 		var props []string
-		if stAllProps {
+		if v.Benign {
+			if only != "" {
+				props = []string{only}
+			} else {
+				for p := range registry {
+					props = append(props, p)
+				}
+				sort.Strings(props)
+			}
+			v.Props = nil
+		} else if stAllProps {
 			for p := range registry {
 				props = append(props, p)
 			}
@@ -293,8 +310,8 @@ func runSelfTests(verifDir, root, prop string) map[string]any {
 		ids = append(ids, id)
 	}
 	sort.Strings(ids)
-	fired, silentOK, stale := 0, 0, 0
-	var missed, knownMissed, staleL, firedL, extra []string
+	fired, silentOK, stale, benignSilent := 0, 0, 0, 0
+	var missed, knownMissed, staleL, firedL, extra, falseAlarms []string
 	for _, id := range ids {
 		r := res[id][prop]
 		e, has := exp[id][prop]
@@ -303,12 +320,21 @@ func runSelfTests(verifDir, root, prop string) map[string]any {
 			stale++
 			staleL = append(staleL, id+": "+r.Detail)
 		case "fired":
+			if strings.HasPrefix(id, "benign-") {
+				falseAlarms = append(falseAlarms, fmt.Sprintf("%s via %s (%s)", id, strings.Join(r.Rules, ","), strings.Join(r.Keys, " ")))
+				fmt.Printf("SELFTEST-FALSE-ALARM property=%s variant=%s rules=%s\n", prop, id, strings.Join(r.Rules, ","))
+				continue
+			}
 			fired++
 			firedL = append(firedL, fmt.Sprintf("%s via %s", id, strings.Join(r.Rules, ",")))
 			if has && !e.Fires {
 				extra = append(extra, id)
 			}
 		case "silent":
+			if strings.HasPrefix(id, "benign-") {
+				benignSilent++
+				continue
+			}
 			if has && e.Fires {
 				missed = append(missed, id)
 				fmt.Printf("SELFTEST-MISS property=%s variant=%s expected rules=%s\n", prop, id, strings.Join(e.Rules, ","))
@@ -318,16 +344,18 @@ func runSelfTests(verifDir, root, prop string) map[string]any {
 			}
 		}
 	}
-	fmt.Printf("selftest property=%s variants=%d fired=%d not-detected(recorded)=%d missed=%d stale=%d\n", prop, len(ids), fired, silentOK, len(missed), stale)
+	fmt.Printf("selftest property=%s variants=%d fired=%d not-detected(recorded)=%d missed=%d stale=%d benign-silent=%d false-alarms=%d\n", prop, len(ids), fired, silentOK, len(missed), stale, benignSilent, len(falseAlarms))
 	return map[string]any{
-		"variants":              len(ids),
-		"fired":                 fired,
-		"fired_list":            nonNil(firedL),
-		"missed":                nonNil(missed),
-		"recorded_not_detected": nonNil(knownMissed),
-		"newly_detected":        nonNil(extra),
-		"stale":                 nonNil(staleL),
-		"method":                "each variant (reverse of a fix: commit, or an independently written property-breaking patch) is applied to a temporary copy of the analysed tree and analysed by a separate rdcheck process; expectations are frozen in selftest/expected.json",
+		"variants":               len(ids),
+		"fired":                  fired,
+		"fired_list":             nonNil(firedL),
+		"missed":                 nonNil(missed),
+		"recorded_not_detected":  nonNil(knownMissed),
+		"newly_detected":         nonNil(extra),
+		"stale":                  nonNil(staleL),
+		"benign_variants_silent": benignSilent,
+		"false_alarms":           nonNil(falseAlarms),
+		"method":                 "each variant (reverse of a fix: commit, or an independently written property-breaking patch) is applied to a temporary copy of the analysed tree and analysed by a separate rdcheck process; expectations are frozen in selftest/expected.json",
 	}
 }
 
@@ -382,11 +410,18 @@ func cmdSelftest(args []string) int {
 			if has && !e.Fires && r.Status == "fired" {
 				tag = "  (newly detected)"
 			}
+			if strings.HasPrefix(id, "benign-") {
+				tag = ""
+				if r.Status == "fired" {
+					tag = "  <-- FALSE ALARM " + strings.Join(r.Keys, " ")
+					rc = 1
+				}
+			}
 			if *quiet && r.Status != "fired" {
 				continue
 			}
 			fmt.Printf("%-22s %-4s %-7s %s %s%s\n", id, p, r.Status, strings.Join(r.Rules, ","), r.Detail, tag)
-			if *record && r.Status != "stale" {
+			if *record && r.Status != "stale" && !strings.HasPrefix(id, "benign-") {
 				if exp[id] == nil {
 					exp[id] = map[string]stExpect{}
 				}
